@@ -589,7 +589,7 @@ impl<'a> Sel<'a> {
             let ready: Vec<usize> = (0..self.ops.len()).filter(|&i| self.ops[i].ready()).collect();
             if !ready.is_empty() {
                 rt::count_select();
-                let k = if ready.len() == 1 { 0 } else { rt::choose(ready.len()) };
+                let k = if ready.len() == 1 { 0 } else { rt::choose_arm(ready.len()) };
                 return Some(ready[k]);
             }
             if has_default {
